@@ -32,7 +32,7 @@ func (c04) Rule() string {
 }
 func (c04) Batches(string) int { return 32 }
 func (c04) Required(string) []string {
-	return []string{"roundtrips", "const_profile", "generated", "with_source_modules", "with_builtin_modules", "error_outcomes_with_trace", "kind.float", "kind.string", "kind.compiledFunction", "kind.map", "boundary_roundtrips"}
+	return []string{"roundtrips", "const_profile", "generated", "with_source_modules", "with_builtin_modules", "error_outcomes_with_trace", "kind.float", "kind.string", "kind.compiledFunction", "kind.map", "boundary_roundtrips", "writer_fault_points"}
 }
 func (c04) Assumptions() []string {
 	return []string{"running the original bytecode is the reference", "canon.Outcome comparison (floats by bits, traces as file:line)"}
@@ -55,6 +55,66 @@ func safeEncode(bc *ugo.Bytecode) (b []byte, err error, pan string) {
 	var buf bytes.Buffer
 	err = encoder.EncodeBytecodeTo(bc, &buf)
 	return buf.Bytes(), err, ""
+}
+
+// limitWriter accepts limit bytes and fails afterwards (a full disk, a closed pipe); chunk > 0 makes it accept at most chunk
+// bytes per call without an error (a legal short write must be reported by the caller as io.ErrShortWrite).
+type limitWriter struct {
+	buf   bytes.Buffer
+	limit int
+	short bool
+}
+
+func (w *limitWriter) Write(p []byte) (int, error) {
+	room := w.limit - w.buf.Len()
+	if room >= len(p) {
+		return w.buf.Write(p)
+	}
+	if room < 0 {
+		room = 0
+	}
+	w.buf.Write(p[:room])
+	if w.short {
+		return room, nil
+	}
+	return room, fmt.Errorf("injected write failure after %d bytes", w.limit)
+}
+
+// writerFaults: whenever EncodeBytecodeTo reports success, the destination holds the complete encoding.
+func (m c04) writerFaults(c *core.Ctx, p *Program, bc *ugo.Bytecode) {
+	full, err, pan := safeEncode(bc)
+	if err != nil || pan != "" {
+		return
+	}
+	step := 1
+	if len(full) > 3000 {
+		step = len(full)/1500 + 1
+	}
+	// (a writer that returns n < len(p) without an error would break the io.Writer contract and is not used)
+	for _, short := range []bool{false} {
+		for limit := 0; limit < len(full); limit += step {
+			w := &limitWriter{limit: limit, short: short}
+			var eerr error
+			var epan string
+			func() {
+				defer func() {
+					if r := recover(); r != nil {
+						epan = fmt.Sprint(r)
+					}
+				}()
+				eerr = encoder.EncodeBytecodeTo(bc, w)
+			}()
+			c.Count("writer_fault_points")
+			if epan != "" {
+				c.Violation("C04|encode-panic|writer-fault", "EncodeBytecodeTo panics when the writer fails: "+epan, c04wit{Program: p, Stage: fmt.Sprintf("writer fails after %d of %d bytes", limit, len(full))})
+				return
+			}
+			if eerr == nil && !bytes.Equal(w.buf.Bytes(), full) {
+				c.Violation("C04|encode-reports-success-on-incomplete-write", fmt.Sprintf("EncodeBytecodeTo returned nil although the writer took only %d of %d bytes (short=%v): the stored encoding is not the program", w.buf.Len(), len(full), short), c04wit{Program: p, Stage: fmt.Sprintf("writer limit %d of %d bytes, short write=%v", limit, len(full), short)})
+				return
+			}
+		}
+	}
 }
 
 func safeDecode(b []byte, mm *ugo.ModuleMap) (bc *ugo.Bytecode, err error, pan string) {
@@ -251,6 +311,9 @@ func (m c04) Run(c *core.Ctx) {
 			}
 			mm := ugo.NewModuleMap()
 			mm.AddBuiltinModule("synth", c04syntheticModule())
+			if cr := safeCompile([]byte(src), ugo.CompilerOptions{ModuleMap: mm, NoOptimize: opt < 0}); cr.bc != nil && opt == 0 {
+				m.writerFaults(c, p, cr.bc)
+			}
 			if m.roundTrip(c, p, mm, boolVectors, opt) {
 				c.Count("const_profile")
 				c.Nontrivial(fmt.Sprint(opt) + progHash(p))
